@@ -13,6 +13,7 @@ VARIABLE hist
 GenWSizes == @@WSIZES@@
 GenRSizes == @@RSIZES@@
 GenVias == @@VIAS@@
+GenRVias == @@RVIAS@@
 PrintAll == @@PRINTALL@@     \* FALSE (simulation): print a behaviour only when it has MaxOps calls
 
 GenInit == Init /\ hist = <<>>
